@@ -402,6 +402,11 @@ Definition tbl_transports : list (string * list string) :=
 (* the refresh branch: put_local_provider again, an id from the shared counter, start_add_provider *)
 Definition tbl_refresh : list (list string) :=
   [["next_action"; "put_local_provider"]; ["next_query_id"]; ["start_add_provider"]]%string.
+(* open_substream_or_dial: the three results of service.dial the code distinguishes = Model.dres
+   (DOk, DAlready, DErr): every other ImmediateDialError takes the error arm *)
+Definition dres_name (d : dres) : string :=
+  match d with DOk => "Ok(())" | DAlready => "Err(ImmediateDialError::AlreadyConnected)" | DErr => "Err(error)" end%string.
+Definition tbl_dial_arms : list string := map dres_name [DOk; DAlready; DErr].
 (* the store calls of the command arms: what `kev_of` hands to C17's model of the loop *)
 Definition tbl_cmd_store : list (string * list string) :=
   [("FindNode", []); ("PutRecord", ["put"]); ("PutRecordToPeers", ["put"]); ("StartProviding", ["put_local_provider"]);
@@ -417,6 +422,7 @@ Lemma tables_in_sync :
   C16Tables.results = tbl_results /\
   C16Tables.transports = tbl_transports /\
   C16Tables.refresh = tbl_refresh /\
+  C16Tables.dial_arms = tbl_dial_arms /\
   map (fun r : string * list string * list string * list string => (fst (fst (fst r)), snd (fst r))) C16Tables.loop_cmds = tbl_cmd_store /\
   (* only the GetRecord arm sends events itself: the local hit *)
   map (fun r : string * list string * list string * list string => (fst (fst (fst r)), snd r))
